@@ -69,7 +69,10 @@ def build(case):
         else:
             sheets.append({"name": "entities", "header": ecols, "rows": [list(erow) for _ in range(case["nrows"])]})
     if case.get("nsset"):
-        sheets.append({"name": "settings", "header": ["namespaces", "attribute::cx:marker"], "rows": [['cx="http://example.com/cx" cy="http://example.com/cy"', "m"]]})
+        sheets.append({"name": "settings", "header": ["namespaces", "attribute::cx:marker"], "rows": [['cx="http://example.com/cx" cy="http://example.com/cy"'
+                                                                                                    # prefixes that merely look like the entities prefix, and (every other case) the entities prefix itself
+                                                                                                    # with a foreign URI: the declaration of an entity form is the ODK entities namespace all the same
+                                                                                                    + ' geo_entities="http://example.org/geo"' + (' entities="http://example.org/mine"' if len(str(case)) % 2 else ""), "m"]]})
     idn = norm_src_expr(expr["id"])
     src = {"dataset": ds, "id": idn, "cr": norm_src_expr(expr["cr"]), "up": norm_src_expr(expr["up"]), "lab": norm_src_expr(expr["lab"]),
            "ver": [norm_src_expr(f"instance('{ds}')/root/item[name={expr['id']}]/{v}") for v in ("__version", "__trunkVersion", "__branchId")],
@@ -109,6 +112,6 @@ def observe(xform):
         "has_label": ent is not None and any(project.local(c.tag) == "label" for c in ent),
         "binds": binds, "setvalue": sv,
         "version": next((v for k, v in model.attrib.items() if project.qname(k) == "entities:entities-version"), ""),
-        "ns_declared": bool(m and "xmlns:entities=" in m.group(1)),
+        "ns_declared": bool(m and 'xmlns:entities="http://www.opendatakit.org/xforms/entities"' in m.group(1)),
         "saveto": saveto,
     }
